@@ -88,7 +88,7 @@ def check_path(case, ctx):
         compare_pub("C02/root", "%s public parent" % form, root, rp.neuter(), p["testnet"], prv)
         cur = root
         for lvl, i in enumerate(path):
-            st_, cur = call(cur.ckd, i)
+            st_, cur = call(cur.ckd, index=i) if form == "parsed-ref-xpub" else call(cur.ckd, i)
             if st_ == "exc":
                 raise Violation("C02/path/raised", "%s parent: public ckd(%d) at level %d raised %r" % (form, i, lvl, cur))
             compare_pub("C02/path", "%s parent, path %s level %d" % (form, R.fmt_path(path, "M"), lvl + 1),
@@ -97,6 +97,13 @@ def check_path(case, ctx):
         # the parent whose public key has the same x and the other parity (scalar n - k), in the same process
         check_path({"parent": dict(p, k=S.N - p["k"]), "path": path[:2], "_sibling": True}, ctx)
     if path:
+        for label, arg in (("iterator", iter(list(path))), ("generator", (i for i in list(path))), ("tuple", tuple(path))):
+            st_, end = call(pub_parents(p)[1][1][1].derive_path, arg)
+            if st_ == "exc":
+                ctx.count("derive_path-refuses-%s (not judged)" % label)
+            else:
+                compare_pub("C02/derive_path-%s" % label, "derive_path(<%s> %s)" % (label, R.fmt_path(path, "M")), end, refs[-1],
+                            p["testnet"])
         fresh = pub_parents(p)[1][0][1]
         st_, end = call(fresh.derive_path, list(path))
         if st_ == "exc":
@@ -138,10 +145,12 @@ def check_refusal(case, ctx):
         if st_ == "ok":
             raise Violation("C02/refusal/derive_path-returned", "%s public node: derive_path(%r) returned %r"
                             % (form, path, v))
-        st_, v = call(fresh.generate_children, (case["hard"], case["hard"] + 1))
-        if st_ == "ok" and v:
-            raise Violation("C02/refusal/generate_children-returned", "generate_children((%d, %d)) returned %d nodes"
-                            % (case["hard"], case["hard"] + 1, len(v)))
+        for iv in ((case["hard"], case["hard"] + 1), (H - 1, H + 1), (max(H, case["hard"] - 1), min(2 ** 32, case["hard"] + 2))):
+            fresh2 = dict(pub_parents(p)[1])[form]
+            st_, v = call(fresh2.generate_children, interval=iv)
+            if st_ == "ok" and any(getattr(n_, "index", 0) >= H for n_ in v):
+                raise Violation("C02/refusal/generate_children-returned", "generate_children(%r) on a public node returned "
+                                "%d nodes incl. hardened ones" % (iv, len(v)))
 
 
 # ---------------------------------------------------------------------------- leading-zero children
